@@ -86,9 +86,44 @@ func VerifHarness_C09_dispatch_mul() {
 	in := rt.AbstractBytes("in")
 	out := rt.AbstractBytesLen("out", len(in))
 	rt.Assume(len(in)%2 == 0)
+	want := nativeFill(c, in, out, false)
 	mulByteSliceLE(c, in, out, rt.Bool("ssse3"))
 	rt.KernelCoverage(len(in))
 	rt.Assert(rt.GuardsIntact(), "nothing written past the end of the buffers (native replay)")
+	nativeCompare(out, want)
+}
+
+// Native replay of a dispatch counterexample: real contents (the abstract
+// buffers have none under gosym), so that a range no kernel was given shows in
+// the output.
+func nativeFill(c T, in, out []byte, add bool) []byte {
+	if rt.IsSymbolic() {
+		return nil
+	}
+	for i := range in {
+		in[i] = byte(i*7 + 1)
+		out[i] = 0xEE
+	}
+	want := append([]byte(nil), out...)
+	if add {
+		mulAndAddByteSliceLEGeneric(c, in, want)
+	} else {
+		mulByteSliceLEGeneric(c, in, want)
+	}
+	return want
+}
+
+func nativeCompare(out, want []byte) {
+	if rt.IsSymbolic() {
+		return
+	}
+	same := len(out) == len(want)
+	for i := range want {
+		if i < len(out) && out[i] != want[i] {
+			same = false
+		}
+	}
+	rt.Assert(same, "dispatch: every byte of the buffer is covered (native: result equals the portable loop)")
 }
 
 func VerifHarness_C09_dispatch_muladd() {
@@ -98,9 +133,11 @@ func VerifHarness_C09_dispatch_muladd() {
 	in := rt.AbstractBytes("in")
 	out := rt.AbstractBytesLen("out", len(in))
 	rt.Assume(len(in)%2 == 0)
+	want := nativeFill(c, in, out, true)
 	mulAndAddByteSliceLE(c, in, out, rt.Bool("ssse3"))
 	rt.KernelCoverage(len(in))
 	rt.Assert(rt.GuardsIntact(), "nothing written past the end of the buffers (native replay)")
+	nativeCompare(out, want)
 }
 
 func VerifHarness_C09_size_mismatch() {
